@@ -683,8 +683,17 @@ def check_guard(ctx):
         for flag in (True, False):
             sts = ts.generate_tester_states(c_sys, ns) if ns else []
             pvs = ts.generate_tester_povms(c_sys, npv) if npv else []
-            qt = ts.build(kind, sts, pvs, flag, 2)
-            A, b = np.array(qt.calc_matA(), copy=True), np.array(qt.calc_vecB(), copy=True)
+            try:
+                qt = ts.build(kind, sts, pvs, flag, 2)
+                A, b = np.array(qt.calc_matA(), copy=True), np.array(qt.calc_vecB(), copy=True)
+                if A.shape[0] != sum(qt.num_outcomes(i) for i in range(qt.num_schedules)) or b.shape != (A.shape[0],):
+                    raise ValueError(f"matA {A.shape} / vecB {b.shape} do not have one row per (schedule, outcome)")
+            except Exception as e:  # noqa
+                # building a tomography object and reading its forward model must work for ANY tester set
+                raised(ctx, "forward-model", f"{kind}/flag={flag}", e,
+                       f"constructing {kind} with testers {ns}/{npv} (after the other set-ups of this run) and reading matA/vecB",
+                       {"kind": "oracle-full", "seed": ctx.seed})
+                continue
             f = np.full(A.shape[0], 0.5)
             f[::2] = 0.25
             f[1::2] = 0.75
@@ -749,6 +758,35 @@ def check_mixed(ctx):
                             f"{kind} flag={flag} mixed outcome counts: estimate off by {np.abs(v - t.var(flag)).max():.3e}", rep)
 
 
+def check_product_boundary(ctx):
+    """2-qubit measurement-process tomography with the library's product testers (`tensor_product`, local outcome counts
+    (2,2)) and BOUNDARY true objects with exact zero-probability outcomes: the library's own consistency check and exact
+    recovery from the independent Born rule (oracle only; too large for the exact model)"""
+    spec = ("2qubit", "typical", "typical", "qmpt", True, 2)
+    rep = {"kind": "product-boundary", "seed": ctx.seed}
+    try:
+        S = Setup(ctx.seed, spec)
+        est = LinearEstimator()
+        tol, cond = tol_of(S)
+        for t in ts.edge_objects(S.c_sys, "qmpt", 2, True)[:2] + S.trues()[:1]:
+            ctx.case(("oracle-product-boundary", t.label), sample={"check": "2-qubit QMPT, boundary object", "true": t.label})
+            d = ts.born_reference("qmpt", S.rhos, S.pmats, S.schedules, t)
+            r = est.calc_estimate(S.qt, with_counts(d, [1] * len(d)))
+            eo = float(np.abs(r.estimated_qoperation.to_stacked_vector() - t.obj.to_stacked_vector()).max())
+            if not eo <= tol:
+                ctx.violate("C09/calc_estimate/qmpt/flag=True/2qubit-boundary/exact-recovery",
+                            f"{spec} true={t.label}: object err {eo:.3e} (tol {tol:.1e})", rep)
+                return
+            mse, _ = consistency_check.calc_mse_of_true_estimated(t.obj, S.qt, est)
+            if not mse < 1e-10:
+                ctx.violate("C09/consistency_check/qmpt/flag=True/2qubit-boundary/mse",
+                            f"{spec} true={t.label}: library consistency check mse {mse:.3e}", rep)
+                return
+    except Exception as e:  # noqa
+        raised(ctx, "oracle-product-boundary", "qmpt/flag=True", e, f"on {spec}", rep)
+    ctx.count("oracle 2-qubit QMPT boundary objects with product testers")
+
+
 PARTIAL = [
     {"theorem": "QM.C09.est_exact / est_normal / est_lsq",
      "missing": "the contract G·(AᵀA)=1 is exact; numpy's inverse satisfies it only up to rounding (generators keep "
@@ -772,6 +810,7 @@ def oracle(ctx, volume=1):
             ctx.evaluations += sub.evaluations
     check_guard(ctx)
     check_mixed(ctx)
+    check_product_boundary(ctx)
 
 
 def search(ctx):
@@ -784,6 +823,10 @@ def replay(ctx, data):
     sub = Ctx("C09", "quick", int(r.get("seed", 0)))
     if r["kind"] == "setup":
         check_setup(sub, tuple(r["spec"]), r.get("sched", "all"))
+    elif r["kind"] == "oracle-full":
+        oracle(sub)
+    elif r["kind"] == "product-boundary":
+        check_product_boundary(sub)
     elif r["kind"] == "guard":
         check_guard(sub)
     else:
